@@ -12,6 +12,10 @@ import sys
 import traceback
 
 
+
+def _tup(x):
+    return tuple(_tup(y) for y in x) if isinstance(x, list) else x
+
 def main(argv):
     if argv and argv[0] == '--json':
         payload = json.loads(argv[1])
@@ -35,10 +39,11 @@ def main(argv):
             # the `pre:` lines of the generated condition are part of the harness' precondition
             if fam.pre:
                 env = {n: v for (n, _), v in zip(fam.params, payload['args'])}
-                for cond in fam.pre(tuple(payload['sel'])):
+                for cond in fam.pre(tuple(_tup(x) for x in payload['sel'])):
                     if not eval(cond, {}, env):
                         raise rt.Rejected()
-            r = fam.body(*payload['sel'], *payload['args'])
+            # structural selectors are generated as (nested) tuples; JSON turned them into lists
+            r = fam.body(*[_tup(x) for x in payload['sel']], *payload['args'])
             verdict, detail = ('holds', '') if r else ('fails', 'harness body returned False')
         except rt.Rejected:
             verdict, detail = 'rejected', 'input outside the harness precondition'
